@@ -350,6 +350,7 @@ def run(ck, fx, cg, tier):
     if not ck.anchor("R15.fsm", "eval_print", hb):
         return
     ck.fn(hb["path"])
+    _sink(ck, fx, cg)
     if _fsm_cells(ck, fx, hb):
         # decided cell by cell on the loop body itself (helpers, arm order and guard spelling do not matter)
         _count(ck, fx)
@@ -462,6 +463,62 @@ def _count(ck, fx):
     oks = V.ok_paths(paths)
     ok_push = bool(oks) and all([e for e in V.events(p["eff"]) if e["e"] == "push"][-1:][0]["val"] == V.NULLP for p in oks if [e for e in V.events(p["eff"]) if e["e"] == "push"])
     ck.ob("R15.count", "print yields null", ok_push, "", "every successful path pushes null: %s" % ok_push)
+
+
+def _sink(ck, fx, cg):
+    """R15.sink — print writes *exactly* its decoded, substituted format: (a) the VM's stdout sink passes on the text it
+    is given and nothing else (one write of exactly `s` per call, on every path); (b) nobody else writes to stdout: the
+    functions that obtain stdout (`std::io::stdout`, print!/println!) are the sink itself, the listing of `disassemble`
+    and the stage-output sink of parse/compile — a `Drop`, a banner, a prompt or a progress line anywhere else puts bytes
+    on stdout that no format string produced."""
+    from ..symex import Executor, Client, State
+    from . import shared
+    path = A.get("output.write_str")
+    b = fx.body(path)
+    if ck.anchor("R15.sink", path, b):
+        ck.fn(path)
+        try:
+            res = Executor(fx, Client()).run_body(b, [("var", "self"), ("var", "s")], State())
+        except Exception as e:  # noqa
+            res = None
+            ck.ob("R15.sink", "Output::write_str passes the text on unchanged", False, loc(b), "cannot analyse the output sink (unprovable): %s" % e)
+        if res is not None:
+            def strip(t):
+                while isinstance(t, tuple) and t[:1] == ("app",) and t[1] in ("as_bytes", "as_str", "as_ref", "ref", "deref", "borrow") and t[2]:
+                    t = t[2][0]
+                return t
+            bad = []
+            n_paths = 0
+            for s_, o in res:
+                n_paths += 1
+                ws = [e for e in s_.eff if e["k"] == "call" and e["args"][0][1].rsplit("::", 1)[-1] in ("write_all", "write", "write_fmt", "write_str", "write_vectored", "write_char", "_print")
+                      and ("stdout" in fmt_term(e["args"][1]).lower() if len(e["args"]) > 1 else True)]
+                if len(ws) > 1:
+                    bad.append("%d writes to stdout on one path" % len(ws))
+                for w in ws:
+                    if len(w["args"]) < 3 or strip(w["args"][2]) != ("var", "s"):
+                        bad.append("stdout is written %s, not the text handed in" % (fmt_term(w["args"][2])[:80] if len(w["args"]) > 2 else "?"))
+            ck.ob("R15.sink", "Output::write_str passes the text on unchanged", n_paths > 0 and not bad, loc(b),
+                  "at most one write per call, of exactly the given text (%d path(s))" % n_paths if not bad else "; ".join(sorted(set(bad))[:3]))
+    allowed = {path: "the VM's stdout sink", A.get("cli.disassemble"): "the listing of `fml disassemble`", "NamedSink::console": "stage output of parse / compile (not used by run / execute)"}
+    n_w = 0
+    for hb in fx.hir:
+        hits = [n for n, ps in walk_body(hb) if n.get("k") in ("Call", "MethodCall") and n.get("callee") and (callee_def(n) or "") in ("std::io::stdout", "std::io::_print")]
+        if not hits:
+            continue
+        n_w += 1
+        fn = hb["path"].split("::{closure#", 1)[0]
+        ok = fn in allowed
+        why = allowed.get(fn)
+        if not ok:
+            # a private helper that only serves the allowed writers
+            ds = cg.dids_of(fn)
+            eff = shared.effective_callers(fx, cg, ds[0], set(allowed)) if ds else set()
+            ok = bool(eff) and eff <= set(allowed) and fn not in eff
+            why = "private helper of %s" % ", ".join(sorted(eff)) if ok else None
+        ck.ob("R15.sink", "%s|obtains stdout" % fn, ok, loc(hits[0]),
+              why if ok else "%s writes to standard output besides print's sink: during `run` / `execute` stdout then carries bytes that no format string produced" % fn)
+    ck.floor("R15.sink", "functions that obtain stdout", n_w, 3)
 
 
 def _render(ck, fx):
